@@ -8,12 +8,86 @@ HERE = os.path.dirname(os.path.dirname(os.path.abspath(__file__)))
 
 CHECKS = {
     # id: (level, technique, level text, level note)
-    "C20": (
-        "exploration",
-        "exhaustive execution of code-page converters, lexer, parser and transpiler on every byte pair and table key; ast read of the table source for duplicate keys",
-        "Finite domain enumerated completely by running the real functions; a monitor compares each result with the one-token / round-trip / arity oracle.",
-        "elements.yaml read by a subset parser; duplicate dict keys read statically (leave no run-time trace).",
-    ),
+    "C01": ("translation_validation",
+            "reference-model monitor: generated structure programs run through execute_vyxal under an exec/namespace probe, stdout recorder and sys.monitoring LINE trace; final stack, stdout and stack-shape trace compared with an executable model of the documented semantics",
+            "Per-program translation validation: every generated program that the documents determine is executed by the real pipeline and compared (final stack, printed text, termination, stack shapes at top-level statement boundaries) with a reference interpreter of the generator's AST.",
+            "Trusts the reference model (written from the specs; skips where they are silent) and the probe that captures the exec namespace; covers the closed core of ~35 elements only."),
+    "C02": ("exploration",
+            "icontract postcondition on transpile (result compiles) over grammar-derived programs: every element key x 14 positions, break/recurse x parents, exhaustive <=5-token programs, random G-full",
+            "Exploration with a runtime contract on the real transpiler; exhaustive for the small structural alphabet, sampled beyond.",
+            "Well-formedness is decided by construction of the generator (own reference lexer self-check), never by the repo's parser."),
+    "C03": ("exploration",
+            "metamorphic monitor on parse(tokenise(.)): 40 contexts x 7 literal kinds x all payloads of length<=2 over the syntax-significant characters, plus random nestings; tree and token events must differ only at the literal",
+            "Exhaustive over the bounded payload/context space stated in the property, sampled beyond.",
+            "Contexts are a fixed committed set; the literal's position is located by differential runs with harmless payloads."),
+    "C04": ("exploration",
+            "metamorphic monitor: repr(parse(tokenise(closed))) == repr(parse(tokenise(truncated))) for every droppable suffix of closers of grammar-derived programs and exhaustive small ASTs",
+            "Exploration over generated programs and all their truncation points; exhaustive for ASTs <= 4 nodes in the thorough tier.",
+            "Droppable suffixes are computed by the generator from its own AST."),
+    "C05": ("exploration",
+            "execution of literals through tokenise/transpile/exec with a Fraction oracle and a reference scanner for the documented splitting rule; integers exhaustively, hostile decimal expansions, digit/point patterns exhaustively",
+            "Exhaustive ranges plus boundary-heavy sampling; exact type and value checked on the live stack.",
+            "fractions.Fraction and an 8-line reference scanner are the oracle."),
+    "C06": ("exploration",
+            "round-trip monitor: q applied through program text, its output run as a program (compression off / on), plus hand-escaped literals; exhaustive short strings over the escape-relevant subset and all 2-character code-page strings",
+            "Exhaustive for the stated small spaces, random beyond.",
+            "Equality with the original string is the oracle."),
+    "C07": ("exploration",
+            "execution of + - * / % ḭ through program text against fractions.Fraction (exact value and exact type), exhaustive small pairs, sampled large pairs, random expression trees run as Vyxal programs; sys.monitoring ride-along on the six element functions",
+            "Exhaustive small operand space plus sampled large operands and chained expressions.",
+            "Fraction arithmetic is the oracle; floor division defined as floor of the exact quotient, division by zero as 0 per the statement."),
+    "C08": ("exploration",
+            "self-referential law monitor: element(list) vs the list of the same element applied to the items through the same program path, three shapes, nested, eager and lazy, per curated table of documented-vectorising elements",
+            "Sampled per (element, shape, eager/lazy) cell with a minimum of conclusive cases per cell.",
+            "The curated table (data/c08_vectorising.json) is committed data derived from elements.yaml with written exclusions."),
+    "C09": ("exploration",
+            "sentinel-prefix monitor: every element key and modifier x element executed through program text on sentinels + arguments; identity and value of the prefix checked, plus a sys.monitoring watch on helpers.pop for pops below the sentinel line",
+            "All ~390 keys with generated argument tuples; only normally completed executions make a claim.",
+            "Documented whole-stack operations are exempt by key."),
+    "C10": ("exploration",
+            "argument-snapshot monitor (G-val specs materialised twice), copy-then-transform programs, and a sys.monitoring PY_START/PY_RETURN ride-along that snapshots list arguments of every element function (append-only rule for lazy caches)",
+            "All keys with generated arguments plus copy programs over D : Ḃ ¾ variables register global array.",
+            "A lazy list argument may grow its cache but must denote the same sequence."),
+    "C11": ("exploration",
+            "read-history monitor: unique inputs, programs over explicit/implicit reads at top level and inside lambdas/functions; final stack and stdout vs the reference model, direct cyclic-stream check on recorded read events, event trace vs model",
+            "Exhaustive over a 9-symbol alphabet up to length 4/5 x 7 input lists, random histories to length 12.",
+            "Read events are recorded by rebinding get_input in the vyxal modules (secondary monitor)."),
+    "C12": ("exploration",
+            "depth-tuple monitors (at exit and at every top-level statement boundary via sys.monitoring LINE events) plus public probes (n, exec probe, implicit-read probe) spliced into break-heavy generated programs and decided by the reference model",
+            "Sampled programs with break/recurse at every legal position and lazy-list printing.",
+            "Depth tuple read from the four context lists named in the property's anchors; programs whose function frames were left by a swallowed exception are not 'normally finishing' and are skipped."),
+    "C13": ("exploration",
+            "lock-step plain-list model over observation histories on LazyList(iter(src)); ghost-truth invariant checked on every method return via sys.monitoring",
+            "Exhaustive histories (length<=3 quick, <=4 thorough) over 24 parametrised observations on 40 sources, random histories to length 12.",
+            "Python list semantics is the oracle; observations undefined on a plain list are not generated."),
+    "C14": ("exploration",
+            "instrumented infinite sources that count pulls and raise past a logical budget; catalogue of 42 transformations with linear need(n), all pairs and triples; values compared with the same program on a finite prefix",
+            "All catalogue entries and compositions up to 3, n<=40, first-n and item-n.",
+            "need(n) bounds are committed data measured on the pinned tree with slack 2; termination is the bounded statement 'within the pull budget'."),
+    "C15": ("exploration",
+            "round-trip monitor through program text for øC øc øD τ β: compressed literal run as a program must leave the original; length check for dictionary compression; digit range check",
+            "Exhaustive small ranges, boundary values b^k-1, b^k, b^k+1, random large values and strings.",
+            "Equality / length comparison is the oracle."),
+    "C16": ("exploration",
+            "36 executable laws with itertools/builtins right-hand sides over all small integer lists and random lists/strings, each also as lazy / nested-lazy / sympy-integer variants",
+            "Exhaustive small lists plus random; every law must be evaluated (per-law minimum counters).",
+            "Orders compared only where the documentation fixes them, multisets otherwise."),
+    "C17": ("exploration",
+            "39 laws against naive reference definitions (trial division, Euclid, Pascal ...) with exact value and type, exhaustive n ranges, pairs, special numbers, inverse pairs",
+            "Exhaustive 0..2000 (quick) / 0..20000 (thorough) plus random to 1e12.",
+            "Naive definitions are the oracle."),
+    "C18": ("exploration",
+            "shape-whitelist + taint monitor on transpile output: statement skeletons and identifier vocabulary derived at run time from a benign corpus of the same tree; hostile payloads at every text position; compile audit events counted",
+            "Exhaustive short payloads at 22 positions, all raw strings of length<=4, random code-page/Unicode strings.",
+            "Whitelist derived from the tree under test (a legitimate refactor moves both sides); held-out benign programs guard against an over-tight whitelist."),
+    "C19": ("exploration",
+            "audit-event trace checker (compile/exec/open/os.system/subprocess/socket), canary in builtins, stdout + fd 1 recorders, output-record comparison with the reference model, failpoints raising at the k-th call of element functions",
+            "Sampled model-determined programs, taint programs through E † Ė and inputs, fault injection; positive control offline.",
+            "sympy-backed string overloads are outside the property; taint marker must not collide with repo identifiers."),
+    "C20": ("exploration",
+            "exhaustive execution of code-page converters, lexer, parser and transpiler on every byte pair and table key; ast read of the table source for duplicate keys",
+            "Finite domain enumerated completely by running the real functions; a monitor compares each result with the one-token / round-trip / arity oracle.",
+            "elements.yaml read by a subset parser; duplicate dict keys read statically (leave no run-time trace)."),
 }
 
 NOT_BUILT = {}
